@@ -147,6 +147,8 @@ class RealSource:
         kind = self.constraints.get(name)
         if kind == 'pos':
             return Fraction(r.randint(1, 16), r.choice([1, 2, 4, 8]))
+        if kind == 'nonzero':
+            return Fraction(r.choice([-1, 1]) * r.randint(1, 16), r.choice([1, 2, 4, 8]))
         if kind == 'nonneg':
             return Fraction(r.randint(0, 16), r.choice([1, 2, 4, 8])) if r.random() > self.zero_prob else Fraction(0)
         if r.random() < self.zero_prob:
